@@ -1086,7 +1086,10 @@ impl AnnotationStore {
                 config.dataformat = DataFormat::Csv;
                 return AnnotationStore::from_csv_file(filename, config);
             }
-            todo!("Merging CSV files for AnnotationStore is not supported yet");
+            //TODO: not implemented yet; an error rather than a panic
+            return Err(StamError::OtherError(
+                "Merging CSV files for AnnotationStore is not supported yet",
+            ));
         }
 
         self.merge_json_file(filename)?;
